@@ -26,7 +26,7 @@ def extract_fn(text, name, indent=4, required_substrings=(), within=None):
     if within:
         text = region(text, within)
     pad = " " * indent
-    pat = re.compile(r"^%s(?:pub(?:\([a-z]+\))? )?fn %s\b" % (re.escape(pad), re.escape(name)), re.M)
+    pat = re.compile(r"^%s(?:pub(?:\([a-z]+\))? )?(?:unsafe )?(?:extern \"C\" )?fn %s\b" % (re.escape(pad), re.escape(name)), re.M)
     ms = list(pat.finditer(text))
     if len(ms) != 1:
         raise SliceError("function `%s` found %d times at indentation %d" % (name, len(ms), indent))
@@ -46,7 +46,7 @@ def extract_fn(text, name, indent=4, required_substrings=(), within=None):
         if s not in body:
             raise SliceError("function `%s` no longer contains `%s`" % (name, s))
     # visibility is irrelevant inside the mock impl
-    body = re.sub(r"^%s(pub(?:\([a-z]+\))? )fn " % re.escape(pad), pad + "fn ", body, count=1)
+    body = re.sub(r"^%s(?:pub(?:\([a-z]+\))? )?(unsafe )?(?:extern \"C\" )?fn " % re.escape(pad), lambda m: pad + (m.group(1) or "") + "fn ", body, count=1)
     return body
 
 
